@@ -272,6 +272,35 @@ def const_feed_loop(n_limit: int, c0: int, name: str = "cfeed"):
     return {"spec": {"name": name, "nodes": nodes, "bind": {}}, "inputs": inputs, "ref": ref, "template": "const-feed"}
 
 
+def interval_loop(width: int, start: int, name: str = "ival"):
+    """A gate synchronised on TWO signals that are emitted by parallel branches of different length:
+    fast  raise_lo(n)->lo [lo_done];  slow  plan(n)->plan, review(plan)->approved, lower_hi(approved)->hi [hi_done];
+    gate(lo, hi) waits for both and continues while hi > lo;  advance(lo)->n is its target.
+    The gate must compare lo and hi of the SAME iteration (never the new lo with the previous hi)."""
+    nodes = [
+        {"k": "fn", "name": "raise_lo", "params": [{"n": "n"}], "outs": ["lo"], "emit": ["lo_done"], "beh": ["id", "n"]},
+        {"k": "fn", "name": "plan", "params": [{"n": "n"}], "outs": ["plan"], "beh": ["rsubc", "n", width]},
+        {"k": "fn", "name": "review", "params": [{"n": "plan"}], "outs": ["approved"], "beh": ["id", "plan"]},
+        {"k": "fn", "name": "lower_hi", "params": [{"n": "approved"}], "outs": ["hi"], "emit": ["hi_done"], "beh": ["id", "approved"]},
+        {"k": "route", "name": "gate", "params": [{"n": "lo"}, {"n": "hi"}], "targets": ["advance", "END"], "wait": ["lo_done", "hi_done"], "cond": ["gtp", "hi", "lo"], "then": "advance", "else": "END", "open": False},
+        {"k": "fn", "name": "advance", "params": [{"n": "lo"}], "outs": ["n"], "beh": ["inc", "lo"]},
+    ]
+    inputs = {"n": start}
+    trace = []
+    n = start
+    while True:
+        lo, hi = n, width - n
+        trace += [("raise_lo", {"lo": lo}), ("plan", {"plan": hi}), ("review", {"approved": hi}), ("lower_hi", {"hi": hi}), ("gate", {})]
+        if not hi > lo:
+            break
+        n = lo + 1
+        trace.append(("advance", {"n": n}))
+    vals = _fold(inputs, trace)
+    vals.setdefault("n", start)
+    ref = {"trace": None, "values": vals, "counts": _counts(trace), "singleton_steps": False, "steps": len(trace)}
+    return {"spec": {"name": name, "nodes": nodes, "bind": {}}, "inputs": inputs, "ref": ref, "template": f"interval(width={width})"}
+
+
 def nested_loop(n_limit: int, c0: int, body_len: int = 1, gate: str = "route", depth: int = 1):
     """T7: the counter loop wrapped as a nested graph inside a DAG: pre -> [loop] -> post."""
     inner = counter_loop(n_limit, c0 + 1, body_len, gate, name="inner")
@@ -308,6 +337,8 @@ def gen_loop(rng):
     t = rng.choice(["counter", "counter", "counter", "acc", "signal", "signal", "nested", "entry", "twoacc", "lagged"])
     n = rng.randint(0, 7)
     c0 = rng.randint(0, 3)
+    if rng.random() < 0.08:
+        return interval_loop(rng.randint(2, 12), rng.randint(0, 4))
     if t == "lagged":
         return lagged_signal_loop(n, c0, rng.choice(["route", "ifelse"]))
     if t == "counter":
